@@ -1,7 +1,8 @@
-//! Driver for the compatx engine (C19).
-//!   compatx_test [quick|thorough]        run the check
-//!   compatx_test case '<replay json>'    re-execute one case and print every stage of both readers
-//!   compatx_test case @<replay file>
+mod compatx;
+// Driver for the compatx engine (C19).
+//   compatx_test [quick|thorough]        run the check
+//   compatx_test case '<replay json>'    re-execute one case and print every stage of both readers
+//   compatx_test case @<replay file>
 
 fn main() {
     let args: Vec<String> = std::env::args().collect();
@@ -13,9 +14,9 @@ fn main() {
                 Some(path) => std::fs::read_to_string(path).unwrap_or_default(),
                 None => arg,
             };
-            vh::compatx::replay(&text)
+            compatx::replay(&text)
         }
-        tier => vh::compatx::run(tier),
+        tier => compatx::run(tier),
     };
     std::process::exit(code);
 }
